@@ -39,9 +39,9 @@ R.contract("Node._update_peer_counters",
 R.kind_hints[("Node._record_answer", "deque")] = "Deque[int]"
 R.macro("msg_key", ["m"], "fstr_hbh_e2e(m.header.hop_by_hop_identifier, m.header.end_to_end_identifier)")
 R.macro("mkey", ["m"], "fstr('{}:{}', m.header.hop_by_hop_identifier, m.header.end_to_end_identifier)")
-R.macro("dq_push", ["xs", "x", "ml"], "ite(ml <= 0, xs[0:0], ite(len(xs) >= ml, xs[1:] + [x], xs + [x]))")
+R.macro("dq_push", ["xs", "x", "ml"], "ite(ml == 0, xs[0:0], ite(ml > 0 and len(xs) >= ml, xs[1:] + [x], xs + [x]))")
 R.macro("window", ["n", "o"], "ite(o in n._sent_answers, items(n._sent_answers[o]), items(n._sent_answers[o])[0:0])")
-R.macro("dq_ok", ["d"], "len(d) <= maxlen(d) or maxlen(d) <= 0")
+R.macro("dq_ok", ["d"], "maxlen(d) < 0 or len(d) <= maxlen(d)")
 R.macro("win_ok", ["n", "o"], "implies(o in n._sent_answers, dq_ok(n._sent_answers[o]))")
 R.macro("sa_untouched", ["n"], "unchanged(n._sent_answers) and unchanged('deque:int') and unchanged(n._origin_waiting_answer)")
 R.macro("win_sep", ["n", "o", "x"], "implies(o in n._sent_answers and x in n._sent_answers and o != x, "
@@ -73,6 +73,9 @@ R.contract("Node._record_answer", params={"self": "Node", "conn": "PeerConnectio
                      "old(self._origin_waiting_answer[mkey(message)][0]) != o, "
                      "(o in self._sent_answers) == old(o in self._sent_answers) and window(self, o) == old(window(self, o)))"),
                     ("pending-entry-released", "not (mkey(message) in self._origin_waiting_answer)"),
+                    ("a-new-window-is-bounded-by-the-configured-size",
+                     "implies(not old(o in self._sent_answers) and o in self._sent_answers, "
+                     "maxlen(self._sent_answers[o]) == self.retransmit_queue_size)"),
                     ("windows-stay-well-formed", "win_ok(self, o)")],
            raises=[Raise("TypeError", "mkey(message) in self._origin_waiting_answer and "
                                       "not is_none(peer_of(self, conn)) and hasattr(message, 'result_code') and "
@@ -272,7 +275,8 @@ R.contract("Node._receive_app_request", params={"self": "Node", "conn": "PeerCon
                                                                "not (mkey(message) in self._origin_waiting_answer))"),
                     ("windows-stay-well-formed", "win_ok(self, o)")],
            raises=[Raise("Exception", "True", "may")],
-           ensures_exc={"Exception": [("failing-sends-nothing", "nothing_sent(conn)"), ("failing-keeps-windows", "sa_untouched(self)")]},
+           ensures_exc={"Exception": [("failing-sends-nothing", "nothing_sent(conn)"), ("failing-keeps-windows", "sa_untouched(self)"),
+                                      ("only-a-request-handler-fails", "not no_delivery(self)")]},
            ghost_modifies=["conn._write_msg_queue.g_put", "self.g_dlv_app", "self.g_dlv_msg"],
            modifies=_ANS_MODS + ["dict:self._peer_waiting_answer",
                                  "dict:self._peer_waiting_answer[conn.host_identity] if conn.host_identity in self._peer_waiting_answer"],
@@ -334,7 +338,7 @@ R.macro("dup_cond", ["n", "m"],
         "m.origin_host in n._sent_answers and m.header.end_to_end_identifier in n._sent_answers[m.origin_host]")
 R.macro("new_out", ["c"], "items(out(c))[old(len(out(c)))]")
 R.contract("Node._receive_message", params={"self": "Node", "conn": "PeerConnection", "msg": "Message"},
-           ghost={"o": "Opt[bytes]"},
+           ghost={"o": "Opt[bytes]", "w": "Any:routekey"},
            requires=[("flags-octet", "0 <= msg.header.command_flags < 256"),
                      ("identity-encodable", "encodable(self.origin_host) and encodable(self.realm_name)"),
                      ("origin-host-attr", "implies(hasattr(msg, 'origin_host'), has(msg, 'origin_host'))"),
